@@ -80,6 +80,14 @@ def follow_consumers(fn, local, depth=0, seen=None):
             s = u[3]
             if not s["lhs"]["p"] and ("use" in s["rv"] or "ref" in s["rv"] or "cast" in s["rv"]):
                 out += follow_consumers(fn, s["lhs"]["l"], depth + 1, seen)
+            elif not s["lhs"]["p"] and s["rv"].get("agg") == "adt":
+                # `Finder { finder: memmem::Finder::new(pat), haystack: <this slice>, .. }`: a hand-written literal finder
+                ops_e = [fn.expr_of_operand(o) for o in s["rv"].get("ops", [])]
+                fnew = [x for e_ in ops_e for x in walk(e_) if x[0] == "call" and "memmem::Finder" in str(x[1]) and str(x[1]).endswith("::new")]
+                if fnew:
+                    t_ = {"k": "call", "fn": "memchr::memmem::find_iter", "resolved": "memchr::memmem::find_iter", "args": [], "dest": s["lhs"], "synthetic": True,
+                          "pattern_expr": fnew[0][2][0]}
+                    out.append(("memmem", u[1], t_))
             continue
         if u[2]["k"] != "call":
             continue
@@ -93,6 +101,8 @@ def follow_consumers(fn, local, depth=0, seen=None):
             out.append(("searchnew", u[1], t))
         elif c.endswith("memmem::find_iter") or f.endswith("memmem::find_iter") or c.endswith("memmem::find") or f.endswith("memmem::find") or c.endswith("::find_overlapping"):
             out.append(("memmem" if pos == "arg0" else "memmem-pattern", u[1], t))
+        elif "memmem::Finder" in c and c.endswith("::new"):
+            out.append(("memmem-pattern", u[1], t))
         elif c.endswith("Iterator::position") or f.endswith("Iterator::position") or c.endswith("::position"):
             out.append(("position", u[1], t))
         elif f.endswith("Iterator::eq") or f.endswith("Iterator::map") and False:
@@ -163,7 +173,7 @@ def rule_window(ctx, only=None):
                     p = Poly.const(1)
                     w = kind
                 elif kind == "memmem":
-                    pat = fn.expr_of_operand(ct["args"][1])
+                    pat = ct["pattern_expr"] if ct.get("synthetic") else fn.expr_of_operand(ct["args"][1])
                     pp = peel(pat)
                     # needle (whole) or needle[..len]
                     if pp[0] in ("arg", "local") and root_of(pp) != hroot:
@@ -226,6 +236,11 @@ def rule_prefilter_arms(ctx):
         P = poly_of(fn.expr_of_operand(t["args"][3]), at)
         it = fn.expr_of_operand(t["args"][4])
         problems = []
+        if it[0] == "agg":
+            fcalls = [x for v_ in it[2].values() for x in walk(v_) if x[0] == "call" and "memmem::Finder" in str(x[1]) and str(x[1]).endswith("::new")]
+            slices = [v_ for v_ in it[2].values() if any(x[0] == "call" and str(x[1]).endswith("::index") for x in walk(v_)) and not any(x[0] == "call" and "memmem::Finder" in str(x[1]) for x in walk(v_))]
+            if len(fcalls) == 1 and len(slices) == 1:
+                it = ("call", "exact::find_overlapping", (slices[0], fcalls[0][2][0]), "exact::find_overlapping", fcalls[0][4])
         if it[0] != "call":
             ctx.fail_closed("prefilter iterator at %s is not a direct constructor call" % site(fn, bi))
             continue
